@@ -92,7 +92,7 @@ Definition accepted_destroys (txs : list tx) (res : list (option (N * N))) : lis
 
 Definition accepted_sends (txs : list tx) (res : list (option (N * N))) : list action :=
   flat_map (fun p => match p with
-                     | (TSend f t a, Some _) => [{| a_from := f; a_to := t; a_amt := a |}]
+                     | (TSend f t a, Some _) => [{| a_from := f; a_to := t; a_amt := a; a_co := [] |}]
                      | _ => [] end) (combine txs res).
 
 Definition cond_met (b : block) (ev : event) : bool :=
@@ -156,7 +156,7 @@ Definition prop_block (accts : list N) (p : pstate) (b : block) (o : obs) : psta
                            && negb (mem (snd d) reg_ids)) destroys)
         "prop:destroyed after being queued or still present after destroy" ++
     tag (forallb (fun k => addrs_eqb (k_signers k) (k_auths k)
-                           && forallb (fun a => mem (a_from a) (k_auths k)) (k_actions k)
+                           && forallb (fun a => forallb (fun x => mem x (k_auths k)) (a_signers a)) (k_actions k)
                            && negb (mem (k_id k) (map k_id (p_known p)))) creates)
         "prop:action signer did not sign the creating transaction" ++
     tag (forallb (fun x => match lookup (fst x) known' with
